@@ -65,7 +65,7 @@ ALLOWED_ASSUMPTIONS = {
                              "i64::saturating_sub", "i32::saturating_sub", "i32::rem_euclid", "i32::div_euclid", "i64::div_euclid", "i32::abs",
                              "i64::saturating_abs", "i64::saturating_add", "i32::saturating_add", "i32::wrapping_abs", "i64::wrapping_abs",
                              "i32::unsigned_abs", "i64::unsigned_abs"},
-    "external_body": {"utc", "equal", "axiom_mj_stable", "axiom_mm_stable"},
+    "external_body": {"utc", "equal", "axiom_mm_stable"},
 }
 
 
